@@ -166,11 +166,13 @@ fn compare(ctx: &Ctx, beh: &Value, reply: &Value) {
         let s = &case["s"];
         let r = |j: usize| res.get(ci * per + j).cloned().unwrap_or(json!({"k":"missing"}));
         let names = ["is_match", "replace0", "replace2", "tokenize", "analyze"];
-        let mut faulty = false;
+        // a call that panicked / hung / aborted is reported as such and excluded from the comparisons;
+        // the other calls of the same case are still compared
+        let mut fault = [false; 5];
         for j in 0..per {
             if let Some(k) = fault_kind(&r(j)) {
                 ctx.violation(k, beh, s, names[j], Value::Null, r(j));
-                faulty = true;
+                fault[j] = true;
             }
         }
         {
@@ -182,17 +184,19 @@ fn compare(ctx: &Ctx, beh: &Value, reply: &Value) {
             ctx.stats.lock().unwrap().unspec_cases += 1;
             continue;
         }
-        if faulty {
-            continue;
-        }
         // C01
-        ctx.bump(0, "m");
-        if r(0)["v"] != case["m"] {
-            ctx.violation("m", beh, s, "is_match", json!({"k":"ok","v":case["m"]}), r(0));
+        if !fault[0] {
+            ctx.bump(0, "m");
+            if r(0)["v"] != case["m"] {
+                ctx.violation("m", beh, s, "is_match", json!({"k":"ok","v":case["m"]}), r(0));
+            }
         }
         // C16: MatchesEmptyString iff nullable
         let s_empty = s.as_array().map(|a| a.is_empty()).unwrap_or(true);
         for j in 1..per {
+            if fault[j] {
+                continue;
+            }
             let should_err = nullable && !(j == 3 && s_empty);
             let is_err = r(j)["k"] == "err" && r(j)["e"] == "MatchesEmptyString";
             ctx.bump(0, "nullable");
@@ -200,7 +204,7 @@ fn compare(ctx: &Ctx, beh: &Value, reply: &Value) {
                 ctx.violation("nullable", beh, s, names[j], json!({"nullable": nullable}), r(j));
             }
         }
-        if nullable && s_empty {
+        if nullable && s_empty && !fault[3] {
             ctx.bump(0, "tok");
             if r(3)["v"] != json!([]) {
                 ctx.violation("tok", beh, s, "tokenize", json!({"k":"ok","v":[]}), r(3));
@@ -218,14 +222,20 @@ fn compare(ctx: &Ctx, beh: &Value, reply: &Value) {
                 ctx.violation(kind, beh, s, name, exp.clone(), raw);
             }
         };
-        cmp("span", "replace0", &case["r0"], r(1));
-        if case["capdef"] != false {
+        if !fault[1] {
+            cmp("span", "replace0", &case["r0"], r(1));
+        }
+        if case["capdef"] != false && !fault[2] {
             cmp("group", "replace2", &case["rg"], r(2));
         }
-        cmp("tok", "tokenize", &case["tok"], r(3));
+        if !fault[3] {
+            cmp("tok", "tokenize", &case["tok"], r(3));
+        }
         let exp_ana = &case["ana"];
         let got_ana = strip_iter_meta(&r(4));
-        if exp_ana["k"] != "ok" || got_ana["k"] != "ok" {
+        if fault[4] {
+            // reported above
+        } else if exp_ana["k"] != "ok" || got_ana["k"] != "ok" {
             cmp("anaflat", "analyze", exp_ana, r(4));
         } else {
             let (ef, gf) = (flat(&exp_ana["v"]), flat(&got_ana["v"]));
